@@ -97,6 +97,15 @@ P.verify(fn(
                       ('expectation_variables', "has(%s, 'LAG_AfterTax') and has(%s, 'EXP_AfterTax')" % (BLK, BLK))],
     raises=HH_RAISES + [RaisesSpec('KeyError', when='False')],
 ))
+P.verify(fn(
+    'sfc_models.sector_definitions.Capitalists.__init__',
+    args=dict(self=Ref('Capitalists'), **HH_ARGS),
+    modifies=['*'],
+    requires=[('good_name_is_local', "not ('__' in 'DEM_' + consumption_good_name) and consumption_good_name != ''")],
+    ensures=HH_ENS + [('consumption_function', defined_as("'DEM_' + consumption_good_name", CONS)),
+                      ('dividend_income_variable', "has(%s, 'DIV')" % BLK)],
+    raises=HH_RAISES,
+))
 
 # ---- searches are scoped to the currency zone -----------------------------------------------------------------
 CL = 'self.CountryList'
